@@ -97,7 +97,6 @@ def run(ctx):
     # locals / parameters the rules below refer to by name (a rename makes the analysis 'broken', never a violation)
     ctx.anchor(ctx.fn1('Oomd::BaseKillPlugin::tryToKillCgroup'), 'nrKilled', 'cgroupPath', 'killUuid', 'target')
     ctx.anchor(ctx.fn1('Oomd::BaseKillPlugin::tryToLogAndKillCgroup'), 'nrKilled', 'maybeNrKilled', 'cgroupPath', 'actionContext', 'killUuid')
-    ctx.anchor(ctx.fn1('Oomd::BaseKillPlugin::run'), 'ret')
     ctx.anchor(ctx.fn1('Oomd::BaseKillPlugin::reportKillInitiationToXattr'), 'prevXattr', 'xattr')
     ctx.anchor(ctx.fn1('Oomd::BaseKillPlugin::reportKillCompletionToXattr'), 'prevXattr', 'numProcsKilled', 'xattr')
     ctx.anchor(ctx.fn1('Oomd::BaseKillPlugin::reportKillUuidToXattr'), 'killUuid', 'xattr')
@@ -339,14 +338,30 @@ def run(ctx):
     krun = ctx.fn1("Oomd::BaseKillPlugin::run")
     fk = Flow(P, krun, cg=ctx.cg)
     seen = set()
+    # the local holding the kill cycle's result, whatever it is called: every value it receives comes from the kill cycle
+    CYCLE = re.compile(r"this->(resumeFromPrekillHook|tryToKillSomething)\(")
+    kr = set()
+    for d_ in krun.all("decl"):
+        for v_ in krun.nodes[d_].get("vars", []):
+            if v_.get("init") is not None and v_.get("init", -1) >= 0 and CYCLE.search(krun.text(v_["init"])):
+                kr.add(v_["name"])
+    for i_, n_ in enumerate(krun.nodes):
+        if n_["k"] == "bin" and n_.get("op") == "=" and CYCLE.search(krun.text(n_["r"])) and krun.nodes[krun.strip(n_["l"])]["k"] == "ref":
+            kr.add(krun.nodes[krun.strip(n_["l"])]["name"])
+    if len(kr) != 1:
+        ctx.broken("kill-result-local", "anchor", krun.loc(), "BaseKillPlugin::run does not keep the kill cycle's result in one local (%s)" % sorted(kr))
+        return
+    krn = sorted(kr)[0]
     for r in returns(krun):
         c = ret_const(krun, r)
         g = fk.guards(r)
         seen.add(c)
-        DEFER = ("(Oomd::BaseKillPlugin::KillResult::DEFER == ret)", "(ret == Oomd::BaseKillPlugin::KillResult::DEFER)")
-        FAILED = ("(Oomd::BaseKillPlugin::KillResult::FAILED == ret)", "(ret == Oomd::BaseKillPlugin::KillResult::FAILED)")
+        DEFER = ("(Oomd::BaseKillPlugin::KillResult::DEFER == %s)" % krn, "(%s == Oomd::BaseKillPlugin::KillResult::DEFER)" % krn)
+        FAILED = ("(Oomd::BaseKillPlugin::KillResult::FAILED == %s)" % krn, "(%s == Oomd::BaseKillPlugin::KillResult::FAILED)" % krn)
         AC = ("this->alwaysContinue_",)
-        fact = lambda keys, pol: any(k in keys and p is pol for k, p in g)
+        # the same tests spelled as a switch / if-chain over the result: case facts on the local
+        CASEF = {DEFER: "DEFER", FAILED: "FAILED"}
+        fact = lambda keys, pol: any(k in keys and p is pol for k, p in g) or (keys in CASEF and any(k == krn and p == (("case:" if pol else "not:") + CASEF[keys]) for k, p in g))
         either = any(p is True and re.match(r"^\(\(.*KillResult::FAILED.*\) \|\| this->alwaysContinue_\)$", k) for k, p in g)
         if c == "ASYNC_PAUSED":
             ok = fact(DEFER, True)
@@ -361,7 +376,13 @@ def run(ctx):
     ctx.check(seen == {"ASYNC_PAUSED", "CONTINUE", "STOP"}, "return-table:run:complete", "return_table", krun.loc(),
               "run() returns the three documented values", "run() returns %s" % sorted(map(str, seen)))
     # ret is the result of the kill cycle
-    for w in local_writes(krun, "ret"):
+    init_, v_ = local_init(krun, krn, must=False)
+    if v_ is not None and init_ is not None and init_ >= 0:
+        # an initialiser counts like an assignment (both arms of a ?: are kill-cycle calls)
+        for leaf in value_leaves(krun, init_):
+            ctx.check(re.match(r"^this->(resumeFromPrekillHook|tryToKillSomething)\(", krun.text(leaf)) is not None, "ret-is-kill-result",
+                      "provenance", krun.loc(leaf), "the result local is the kill cycle's result", "the result local is initialised with " + krun.text(leaf)[:60])
+    for w in local_writes(krun, krn):
         rhs = krun.text(write_rhs(krun, w))
         ctx.check(re.match(r"^this->(resumeFromPrekillHook|tryToKillSomething)\(", rhs) is not None, "ret-is-kill-result",
                   "provenance", krun.loc(w), "ret is the kill cycle's result", "ret receives " + rhs[:60])
